@@ -193,6 +193,11 @@ def check(case, ctx):
     Q1c = copy.deepcopy(Q1)
     R = helpers.degree_reduction(p + 1, Q1)
     ctx.check(Q1 == Q1c, 'input-modified', 'degree_reduction modified its input', what='intact')
+    # the two polygons are two objects: editing the reduced polygon afterwards does not move the polygon it was computed from (nor does
+    # editing the elevated polygon move the one returned by degree_elevation's input)
+    shared = [i_ for i_, r_ in enumerate(R) if any(r_ is q_ for q_ in Q1)] + [i_ for i_, q_ in enumerate(Q) if any(q_ is p_ for p_ in P)]
+    ctx.check(not shared, 'result-aliases-input', 'degree_reduction / degree_elevation return a polygon that shares point objects (indices %r) '
+              'with the polygon it was given: editing one edits the other' % shared, what='intact')
     ok = len(R) == p + 1 and all(abs(a - b) <= 1e-9 * S for r, q in zip(R, P) for a, b in zip(r, q))
     ctx.check(ok, 'reduce/not-inverse', 'degree_reduction(degree_elevation(P)) != P for degree %d -> %d -> %d: max err %s'
               % (p, p + 1, p, max([abs(a - b) for r, q in zip(R, P) for a, b in zip(r, q)] or [None])
